@@ -28,7 +28,8 @@ enum {
 
 static unsigned bn_max, dfs_k, neigh_k, trunc_k;
 static uint64_t cap_bn, cap_dfs;
-static uint64_t bn_units, dfs_units;
+static uint64_t bn_units, dfs_units, dfs1_units, dfs2_units;
+static unsigned dfs1_k, dfs2_k;
 static vf_sb why, sb2;
 static FILE* devnull;
 
@@ -280,7 +281,7 @@ static void corpus_unit(uint64_t i) {
   run_input(ext, n + 1, false);
 }
 static void unit(uint64_t u) {
-  if (u >= bn_units + dfs_units) { corpus_unit(u - bn_units - dfs_units); return; }
+  if (u >= bn_units + dfs_units + dfs1_units + dfs2_units) { corpus_unit(u - bn_units - dfs_units - dfs1_units - dfs2_units); return; }
   if (u < bn_units) {
     va_cap = cap_bn;
     vf_bn_unit(bn_max, u, bn_cb, NULL);
@@ -288,9 +289,14 @@ static void unit(uint64_t u) {
   }
   u -= bn_units;
   va_cap = cap_dfs;
-  vf_dfs_unit(&VF_SIGMA, dfs_k, u, VF_L, va_cap, seq_cb, NULL);
+  if (u < dfs_units) { vf_dfs_unit(&VF_SIGMA, dfs_k, u, VF_L, va_cap, seq_cb, NULL); return; }
+  u -= dfs_units;
+  /* deeper over smaller alphabets: Sigma' (one width per type + all structural heads), Sigma'' (structural heads only) */
+  if (u < dfs1_units) { vf_dfs_unit(&VF_SIGMA1, dfs1_k, u, VF_L, va_cap, seq_cb, NULL); return; }
+  u -= dfs1_units;
+  vf_dfs_unit(&VF_SIGMA2, dfs2_k, u, VF_L, va_cap, seq_cb, NULL);
 }
-static uint64_t units(void) { return bn_units + dfs_units + vf_corpus_count(); }
+static uint64_t units(void) { return bn_units + dfs_units + dfs1_units + dfs2_units + vf_corpus_count(); }
 
 static void init(void) {
   vf_enum_init();
@@ -298,14 +304,18 @@ static void init(void) {
   va_install();
   devnull = fopen("/dev/null", "w");
   bn_max = vf_tier ? 4 : 3;
-  dfs_k = vf_tier ? 6 : 5;
+  dfs_k = 5;
+  dfs1_k = vf_tier ? 7 : 6;
+  dfs2_k = vf_tier ? 8 : 7;
   neigh_k = vf_tier ? 4 : 3;
-  trunc_k = vf_tier ? 6 : 4;
+  trunc_k = vf_tier ? 5 : 4;
   cap_bn = 64 * 1024;
   cap_dfs = vf_tier ? (1ull << 30) : 64 * 1024;
   vf_extra("allocator_cap_bytes", "B(n): %llu, DFS: %llu", (unsigned long long)cap_bn, (unsigned long long)cap_dfs);
   bn_units = vf_bn_units();
   dfs_units = vf_dfs_units(&VF_SIGMA);
+  dfs1_units = vf_dfs_units(&VF_SIGMA1);
+  dfs2_units = vf_dfs_units(&VF_SIGMA2);
   vf_extra("alphabet", "%s: %zu heads (prefix-free: every token is a complete head incl. payload, or one reserved byte)", VF_SIGMA.name, VF_SIGMA.ntoks);
   vf_extra("nesting_limit_L", "%d", (int)VF_L);
   (void)null_cb_noop;
@@ -347,8 +357,10 @@ struct vf_check vf_the_check = {
     .rule = "same input space as C02; judged on every input both decoders reject; distinct_nontrivial = distinct rejected inputs whose first violation lies at an "
             "offset > 0 (B(n) strings, plus DFS sequences longer than n bytes); states/transitions as in C02",
 #endif
-    .bounds = {"B(3) complete (16 843 009 strings); pushdown DFS over Sigma to 5 heads, in-head truncations of sequences of <= 4 heads; neighbours of decided sequences of <= 3 heads",
-               "B(4) complete (4 311 810 305 strings); pushdown DFS over Sigma to 6 heads with all in-head truncations; neighbours of decided sequences of <= 4 heads"},
+    .bounds = {"B(3) complete (16 843 009 strings); pushdown DFS over Sigma to 5 heads, over Sigma' to 6 heads, over Sigma'' to 7 heads; in-head truncations of sequences of <= 4 heads; neighbours of decided "
+               "sequences of <= 3 heads; boundary corpus with truncations",
+               "B(4) complete (4 311 810 305 strings); pushdown DFS over Sigma to 5 heads, over Sigma' to 7 heads, over Sigma'' to 8 heads; all in-head truncations; neighbours of decided sequences of <= 4 heads; "
+               "boundary corpus with truncations"},
     .assumptions = {"reference decoder vf_ref.c (RFC 8949 Appendix C + libcbor profile) is correct; it is pinned to RFC example tables by the setup self-test",
                     "harness allocator grants every request <= the stated cap and refuses larger ones; the reference predicts refusal from the exact request size of a definite array/map (8 resp. 16 bytes per declared entry)",
                     "library built from /repo's working tree with clang -O1 -g -DDEBUG=true -fsanitize=address,undefined -fno-sanitize-recover (CBOR_ASSERT live)",
@@ -359,4 +371,4 @@ struct vf_check vf_the_check = {
                  [K_BN] = "bn_strings", [K_SEQ] = "dfs_sequences", [K_TRUNC] = "in_head_truncations", [K_NEIGH] = "neighbours",
                  [K_INPROGRESS] = "dfs_sequences_still_open", [K_NODES] = "tree_nodes_compared", [K_REFUSALS] = "inputs_with_refused_allocation",
                  [K_STREAMCALLS] = "stream_decoder_calls", [K_PIPELINES] = "client_pipelines_run", [K_TRUNC_SELF] = "oracle_selfcheck_prefixes", [K_CORPUS] = "boundary_corpus_items"},
-    .init = init, .units = units, .unit = unit, .replay = replay, .state_bits = 18};
+    .init = init, .units = units, .unit = unit, .replay = replay, .state_bits = 20};
